@@ -333,6 +333,9 @@ func ruleC10R3(r *Run) {
 	}
 	var elem *ssa.UnOp
 	okNil := true
+	frame, fls := v.fn, v.ls // the function in which the pop happens: cleanup itself, or a pop helper it calls
+	var popCalls []*ssa.Call
+	var popFn *ssa.Function
 	for i, e := range ph.Edges {
 		er := p.resolve(e)
 		if isNilConst(er) {
@@ -344,7 +347,63 @@ func ruleC10R3(r *Run) {
 			}
 			continue
 		}
+		if c, ok := er.(*ssa.Call); ok {
+			// pop helper: a package function called with the receiver, returning nil or the popped element
+			sc := c.Common().StaticCallee()
+			if sc != nil && p.inRapid(sc) && sc.Blocks != nil && !knownFuncs[p.fnName(sc)] && len(c.Common().Args) == 1 && p.expr(c.Common().Args[0]) == "$t" && (popFn == nil || popFn == sc) {
+				popFn = sc
+				popCalls = append(popCalls, c)
+				continue
+			}
+		}
 		elem, _ = er.(*ssa.UnOp)
+	}
+	var elemRets []*ssa.Return
+	if popFn != nil && elem == nil {
+		frame, fls = popFn, p.lockSets(popFn)
+		for _, ret := range returnsOf(popFn) {
+			for _, a := range p.alternatives(p.res(ret, 0), 0) {
+				av := p.resolve(a.Val)
+				if isNilConst(av) {
+					// nil is returned only when the stack was found empty (length read under the lock)
+					sets := p.pathConds(popFn, ret.Block(), func(rl rel) bool { return rl.X == "builtin:len($t.cleanups)" })
+					for _, f := range a.Facts {
+						for k := range sets {
+							sets[k] = append(sets[k], f.String())
+						}
+					}
+					if len(sets) == 0 {
+						okNil = false
+					}
+					for _, set := range sets {
+						found := false
+						for _, lit := range set {
+							if lit == "builtin:len($t.cleanups) <= 0" || lit == "builtin:len($t.cleanups) == 0" {
+								found = true
+							}
+						}
+						if !found {
+							okNil = false
+						}
+					}
+					continue
+				}
+				if u, ok := av.(*ssa.UnOp); ok {
+					elem = u
+					elemRets = append(elemRets, ret)
+				} else {
+					okNil = false
+				}
+			}
+		}
+		// the helper releases the lock it takes
+		released := false
+		for _, cs := range p.calls(popFn) {
+			if cs.Key == "(*sync.Mutex).Unlock" || cs.Key == "(*sync.RWMutex).Unlock" {
+				released = true
+			}
+		}
+		r.Check("(*T).cleanup#pop.helper-unlocks", popFn.Pos(), released, "the pop helper "+p.fnName(popFn)+" releases t.mu", "the pop helper "+p.fnName(popFn)+" never releases t.mu")
 	}
 	if elem == nil {
 		r.Fail("(*T).cleanup#popped", v.callback.Instr.Pos(), "no popped element flows into the callback call")
@@ -356,7 +415,7 @@ func ruleC10R3(r *Run) {
 	// truncation in the same critical section, before the call
 	var trunc *ssa.Store
 	for _, fa := range p.fieldAccesses("T") {
-		if p.within(fa.Fn, v.fn) && fa.Field == "cleanups" && fa.Kind == "write" {
+		if p.within(fa.Fn, frame) && fa.Field == "cleanups" && fa.Kind == "write" {
 			trunc = fa.Instr.(*ssa.Store)
 		}
 	}
@@ -366,12 +425,21 @@ func ruleC10R3(r *Run) {
 			okTrunc = p.expr(sl.X) == "$t.cleanups" && sl.Low == nil && sl.High != nil && p.expr(sl.High) == "(builtin:len($t.cleanups) - 1)"
 		}
 	}
-	r.Check("(*T).cleanup#pop.truncate", posOrFn(trunc, v.fn), okTrunc, "the stack is truncated to [:len-1]", "the cleanup stack is not truncated to [:len-1] when an element is popped")
+	r.Check("(*T).cleanup#pop.truncate", posOrFn(trunc, frame), okTrunc, "the stack is truncated to [:len-1]", "the cleanup stack is not truncated to [:len-1] when an element is popped")
 	if trunc != nil {
-		sameCS := v.ls[trunc]["&$t.mu"] == 'W' && v.ls[elem]["&$t.mu"] == 'W' && noUnlockBetween(p, elem, trunc) && elem.Block() == trunc.Block()
+		sameCS := fls[trunc]["&$t.mu"] == 'W' && fls[elem]["&$t.mu"] == 'W' && noUnlockBetween(p, elem, trunc) && elem.Block() == trunc.Block()
 		r.Check("(*T).cleanup#pop.atomic", trunc.Pos(), sameCS, "element read and truncation happen inside one write-locked region", "reading the last callback and truncating the stack are not in one critical section: two runs of the same callback / a lost registration are possible")
 		// must hold on the path: every path from elem load to callback passes trunc
-		byp := reachable(elem, v.callback.Instr, func(in ssa.Instruction) bool { return in == ssa.Instruction(trunc) })
+		byp := false
+		if frame == v.fn {
+			byp = reachable(elem, v.callback.Instr, func(in ssa.Instruction) bool { return in == ssa.Instruction(trunc) })
+		} else {
+			for _, ret := range elemRets {
+				if reachable(elem, ret, func(in ssa.Instruction) bool { return in == ssa.Instruction(trunc) }) {
+					byp = true
+				}
+			}
+		}
 		r.Check("(*T).cleanup#pop.truncate-on-path", trunc.Pos(), !byp, "every path from the pop to the call truncates first", "the popped callback can be called without having been removed from the stack")
 	}
 	r.Check("(*T).cleanup#call-unlocked", v.callback.Instr.Pos(), len(v.ls[v.callback.Instr.(ssa.Instruction)]) == 0, "the callback is called outside the critical section (it may call t.Cleanup / t.Context)", "the cleanup callback is called while t.mu is held: a callback calling t.Cleanup or t.Failed deadlocks")
@@ -396,7 +464,17 @@ func ruleC10R3(r *Run) {
 		r.Check("(*T).cleanup#return-only-when-empty", ret.Pos(), okAll, "this return is reached only after the stack was found empty", "(*T).cleanup can return on a path that never found the cleanup stack empty (early return): registered cleanups are dropped, e.g. when cleanup is re-entered after a panicking callback")
 	}
 	// loop: callback call returns to the pop
-	r.Check("(*T).cleanup#loop", v.callback.Instr.Pos(), reachable(v.callback.Instr, elem, nil), "after a callback the next one is popped", "the callback loop does not continue after the first callback")
+	loops := false
+	if frame == v.fn {
+		loops = reachable(v.callback.Instr, elem, nil)
+	} else {
+		for _, c := range popCalls {
+			if reachable(v.callback.Instr, c, nil) {
+				loops = true
+			}
+		}
+	}
+	r.Check("(*T).cleanup#loop", v.callback.Instr.Pos(), loops, "after a callback the next one is popped", "the callback loop does not continue after the first callback")
 }
 
 func posOrFn(in ssa.Instruction, fn *ssa.Function) token.Pos {
@@ -461,7 +539,34 @@ func ruleC10R5(r *Run) {
 		facts := p.facts(ret)
 		switch {
 		case ex == "$t.ctx":
-			r.Check("(*T).Context#return-stored", ret.Pos(), holds(facts, "$t.ctx", "!=", "nil"), "returns the stored context when set", "returns t.ctx without having checked it is non-nil")
+			// on every feasible path to this return, a branch established t.ctx != nil or a WithCancel context was stored
+			okPaths, nPaths := true, 0
+			complete := p.pathsFrom(fn.Blocks[0], 400, func(cp *cfgPath, back bool) {
+				if back || cp.infeasible || cp.blocks[len(cp.blocks)-1] != ret.Block() {
+					return
+				}
+				nPaths++
+				nonnil := false
+				for i, b := range cp.blocks {
+					for _, in := range b.Instrs {
+						if st, ok := in.(*ssa.Store); ok && p.expr(st.Addr) == "&$t.ctx" {
+							nonnil = strings.HasPrefix(p.expr(st.Val), "context.WithCancel(") && ls[st]["&$t.mu"] == 'W' && cancelStoredOnPath(p, cp, st)
+						}
+					}
+					if i+1 < len(cp.blocks) {
+						if iff, ok := b.Instrs[len(b.Instrs)-1].(*ssa.If); ok && b.Succs[0] != b.Succs[1] {
+							rl := p.relOf(guard{Cond: iff.Cond, Pol: b.Succs[0] == cp.blocks[i+1]})
+							if holds([]rel{rl}, "$t.ctx", "!=", "nil") {
+								nonnil = true
+							}
+						}
+					}
+				}
+				if !nonnil {
+					okPaths = false
+				}
+			})
+			r.Check("(*T).Context#return-stored", ret.Pos(), (complete && okPaths && nPaths > 0) || holds(facts, "$t.ctx", "!=", "nil"), "returns the stored context only when it was found or just set non-nil", "returns t.ctx on a path that neither checked it is non-nil nor stored a new context")
 			nStored++
 		case strings.HasPrefix(ex, "context.WithCancel("):
 			wc := extractCall(p, res)
@@ -921,4 +1026,21 @@ func isParamWithFreshArgs(p *Program, v ssa.Value) bool {
 		}
 	}
 	return true
+}
+
+// cancelStoredOnPath: the cancel function of the WithCancel call whose context st stores is stored to t.cancelCtx on the path.
+func cancelStoredOnPath(p *Program, cp *cfgPath, st *ssa.Store) bool {
+	wc := extractCall(p, p.resolve(st.Val))
+	if wc == nil {
+		return false
+	}
+	cancelFn := extractOr(wc, 1)
+	for _, b := range cp.blocks {
+		for _, in := range b.Instrs {
+			if s2, ok := in.(*ssa.Store); ok && p.expr(s2.Addr) == "&$t.cancelCtx" && p.same(s2.Val, cancelFn) {
+				return true
+			}
+		}
+	}
+	return false
 }
